@@ -12,7 +12,7 @@ The middle clause is FALSE of the code as it is (`accepted_served_to_completion_
 a stream accepted between the PING ack and loopy's handling of the final GOAWAY is covered by the
 final GOAWAY's id, but loopy's `draining && len(estdStreams) == 0` exit can fire before it has
 processed that stream's `registerStream` item, and the connection is closed under the running
-handler.  Reproduced on the real transport (known finding FC14-2).
+handler.  Reproduced on the real transport (known finding F44).
 -/
 import GrpcProofs.Lemmas.ServerDrain
 namespace GrpcProofs.C14Server
